@@ -54,7 +54,8 @@ def method_roles(prog):
             if (prog.fns[fk].get("impl") or {}).get("self") != ty:
                 continue
             for (bb, t) in b.calls():
-                if callee_name(t).endswith("String::push") or callee_name(t).endswith("String::push_str"):
+                if callee_name(t).endswith("String::push") or callee_name(t).endswith("String::push_str") \
+                        or (callee_name(t).endswith("::extend") and t["args"] and t["args"][0]["k"] != "const" and "std::string::String" in t["args"][0]["place"]["ty"]):
                     tgt = self_path(b.expr_operand(t["args"][0]))
                     val = b.expr_operand(t["args"][1])
                     if tgt and contains_call(val, lambda n: n == keyfn):
